@@ -85,7 +85,8 @@ def sweep(sc):
 def _sweep_one(sc, host_tz):
     import random
     rnd = random.Random(sc.get('seed', 0)); fails = []; n = 0
-    nows = [0, 1, 999999, 30 * US, 59 * US + 999999, 60 * US - 1, 45 * US + 500000, 3600 * US + 17 * US + 3] + [rnd.randrange(0, 10 ** 13) for _ in range(12)]
+    nows = [0, 1, 999999, 30 * US, 59 * US + 999999, 60 * US - 1, 45 * US + 500000, 3600 * US + 17 * US + 3,
+            59 * 60 * US + 20 * US + 250000, 23 * 3600 * US + 59 * 60 * US + 59 * US + 999999] + [rnd.randrange(0, 10 ** 13) for _ in range(12)]          # incl. minute 59 of an hour and 23:59:59.999999 (field roll-over into the next hour / day)
     for now in nows:
         H = (now // (60 * US)) * 60 * US + 61 * US
         offs = [-2 * 86400 * US, -US, -1, 0, 1, 2, US - 1, US, US + 1, H - now - 1, H - now, H - now + 1, 59 * US, 60 * US, 61 * US, 2 * 86400 * US] + [rnd.randrange(-3 * 60 * US, 3 * 60 * US) for _ in range(10)]
